@@ -1,10 +1,12 @@
-(* C13 — encoding is linear over GF(2^16).  Instances by computation (every configuration
-   with K, R <= 5, both rates, both schedules, three related data vectors and four constants);
-   the unbounded theorem follows from the distributivity of the field (FieldFacts, in progress)
-   because every step of the schedules is xor / multiply-by-constant / copy / zero. *)
+(* C13 — encoding is linear over GF(2^16).  Additivity and the zero case are proved for all
+   inputs (C13_add_*, C13_zero) from the distributivity of the field (FieldFacts) by relational
+   parametricity of the schedules (Param); scaling by a constant is shown on instances
+   (C13_instances) — the general scaling theorem needs commutativity of the table product and
+   is in progress. *)
 From Coq Require Import NArith Bool List Lia.
 From RS.Gen Require Import Prelude GenConsts.
 From RS.Model Require Import Field Tables Sched Codec Spec.
+From RS.Proofs Require Import FieldFacts Param Linear.
 Import ListNotations.
 Local Open Scope N_scope.
 
@@ -29,6 +31,48 @@ Print Assumptions C13_instances.
 (* the primitive facts linearity rests on, for all symbols: x * 0-log = identity is not needed;
    zero is absorbing, and the nibble decomposition used by every optimised kernel is additive
    on the basis (all 16 x 16 basis pairs, all sampled multipliers) *)
+(* ---- the unbounded theorems: for EVERY configuration, engine schedule, work-vector length and
+   data (16-bit symbols), per symbol slot ---- *)
+Theorem C13_add_high : forall e K R w1 w2, length w1 = length w2 -> Forall W16 w1 -> Forall W16 w2 ->
+  encode_high sym_ops e K R (map2 N.lxor w1 w2) =
+  map2 N.lxor (encode_high sym_ops e K R w1) (encode_high sym_ops e K R w2).
+Proof. exact encode_high_linear. Qed.
+Print Assumptions C13_add_high.
+
+Theorem C13_add_low : forall e K R w1 w2, length w1 = length w2 -> Forall W16 w1 -> Forall W16 w2 ->
+  encode_low sym_ops e K R (map2 N.lxor w1 w2) =
+  map2 N.lxor (encode_low sym_ops e K R w1) (encode_low sym_ops e K R w2).
+Proof. exact encode_low_linear. Qed.
+Print Assumptions C13_add_low.
+
+Theorem C13_zero : forall e K R n,
+  Forall (fun x => x = 0) (encode_high sym_ops e K R (repeat 0 n)) /\
+  Forall (fun x => x = 0) (encode_low sym_ops e K R (repeat 0 n)).
+Proof. intros; split; [apply encode_high_zero|apply encode_low_zero]. Qed.
+Print Assumptions C13_zero.
+
+(* every engine primitive and the decoder's data path are linear as well *)
+Theorem C13_primitives : forall e size trunc sd w1 w2, length w1 = length w2 -> Forall W16 w1 -> Forall W16 w2 ->
+  fft sym_ops e size trunc sd (map2 N.lxor w1 w2) = map2 N.lxor (fft sym_ops e size trunc sd w1) (fft sym_ops e size trunc sd w2) /\
+  ifft sym_ops e size trunc sd (map2 N.lxor w1 w2) = map2 N.lxor (ifft sym_ops e size trunc sd w1) (ifft sym_ops e size trunc sd w2).
+Proof. intros; split; [apply fft_linear|apply ifft_linear]; assumption. Qed.
+Print Assumptions C13_primitives.
+
+(* bytes: a shard-level encode acts on each 16-bit lane as the symbol-level encode (C04), so the
+   statements above are the bytewise-XOR statements of the property *)
+Theorem C13_lanes : forall lanes k e K R w, (k < lanes)%nat -> Forall (fun s => length s = lanes) w ->
+  Forall2 (Rlane lanes k) (encode_high (shard_ops lanes) e K R w) (encode_high sym_ops e K R (map (fun s => nth k s 0) w)) /\
+  Forall2 (Rlane lanes k) (encode_low (shard_ops lanes) e K R w) (encode_low sym_ops e K R (map (fun s => nth k s 0) w)).
+Proof. intros; split; [apply encode_high_lanes|apply encode_low_lanes]; assumption. Qed.
+Print Assumptions C13_lanes.
+
+(* the one non-trivial algebraic fact linearity needs, for all symbols and multipliers:
+   multiplication by g^m distributes over xor *)
+Theorem C13_mul_additive : forall x y m, x < 65536 -> y < 65536 -> m <= 65535 ->
+  mul (N.lxor x y) m = N.lxor (mul x m) (mul y m).
+Proof. exact mul_additive. Qed.
+Print Assumptions C13_mul_additive.
+
 Theorem C13_mul_zero : forall m, mul 0 m = 0.
 Proof. reflexivity. Qed.
 Print Assumptions C13_mul_zero.
